@@ -106,8 +106,11 @@ PROPS = {
                  "the advertised whole seconds are within one second of what the ACK's update reserves (advertised_is_reserved) — Lean theorems; "
                  "correspondence over every subset of global x per-client settings x list lengths, checked by the monitor's own reading of the config.",
         "props": ["C07"],
-        "streams": [{"test": "TestCfgOptions", "names": ["cfgopts"], "timeout": 300}, {"test": "TestCfgNew", "names": ["cfgnew"], "timeout": 300}],
-        "rule": "16 global subsets x 16 per-client subsets x list lengths {1,2,8} (thorough: also 63) x leases {1 min, 90.5 s, 49 d}, for the client with the "
+        "streams": [{"test": "TestCfgOptions", "names": ["cfgopts"], "timeout": 300}, {"test": "TestCfgNew", "names": ["cfgnew"], "timeout": 300},
+                    {"test": "TestSrvSeq", "names": ["srvseq"], "timeout": 300}, {"test": "TestSrvConc", "names": ["srvconc"], "timeout": 300}],
+        "rule": "the server scripts of C01 (advertised lease time = time the address stays reserved: nobody else is given the address, and the holder is not refused, "
+                "before the time announced in the latest ACK has run out; OFFER and ACK agree) and its real-time burst scenarios (two hosts with per-client entries "
+                "answered concurrently); 16 global subsets x 16 per-client subsets x list lengths {1,2,8} (thorough: also 63) x leases {1 min, 90.5 s, 49 d}, for the client with the "
                 "entry and a stranger, DISCOVER and DISCOVER+REQUEST; plus the valid configurations of the C18 stream (MAC spellings, 63 DNS servers, "
                 "255-byte domain); non-trivial = distinct configuration / answered",
         "trusted": ["as C01; configuration strings parsed by the standard library"],
